@@ -269,9 +269,8 @@ pub(super) fn on_access<T, const CAP: usize>(
         let found = slots.iter().find(|s| s.load(Ordering::Relaxed) == key);
         match access {
             Access::Write => {
-                if found.is_some() {
-                    report(event(EventKind::StoreOverOwned));
-                } else if let Some(free) = slots.iter().find(|s| s.load(Ordering::Relaxed) == 0) {
+                // Several zero-size values of one type may share an offset: a multiset
+                if let Some(free) = slots.iter().find(|s| s.load(Ordering::Relaxed) == 0) {
                     free.store(key, Ordering::Relaxed);
                 }
             }
